@@ -157,7 +157,9 @@ func (te *TypeEnv) typeInv(t types.Type, v string, depth int, A string) string {
 	case *types.Interface:
 		return and(app(">=", app("i_tag", v), "0"), implies(eq(app("i_tag", v), "0"), eq(app("i_val", v), "0")))
 	case *types.Pointer:
-		return app("<=", v, A)
+		// a pointer refers to an allocated object or (negative reference) into one: own(v) is that object
+		te.sc.decl("own", "(declare-fun own (Int) Int)")
+		return and(app("<=", v, A), app("<=", app("own", v), A), implies(app(">=", v, "0"), eq(app("own", v), v)))
 	case *types.Map:
 		return and(app(">=", v, "0"), app("<=", v, A))
 	case *types.Struct:
